@@ -91,6 +91,20 @@ def _assigned_list(fn, var):
     raise LookupError(var)
 
 
+MEMO = "memo-on-all-arguments"
+
+
+def _norm_decorator(d):
+    """`cache`, `functools.cache`, `lru_cache(maxsize=…)` all memoise on the full argument tuple (a bounded table only forgets):
+    one name for them, so that swapping one for another stays quiet"""
+    u = ast.unparse(d)
+    f = d.func if isinstance(d, ast.Call) else d
+    base = f.attr if isinstance(f, ast.Attribute) else f.id if isinstance(f, ast.Name) else u
+    if base in ("cache", "lru_cache") and "typed=True" not in u.replace(" ", ""):
+        return MEMO
+    return base if base == "cached_property" else u
+
+
 def ast_tables(repo):
     """the literal tables as written in the source; raises LookupError if the shape is not found"""
     res = {}
@@ -136,6 +150,29 @@ def ast_tables(repo):
     if dm is None:
         raise LookupError("DIRECTION_MAP")
     res["directionMap"] = [(k, tuple(int(x) for x in v)) for k, v in dm.items()]
+    # the memoised neighbourhood methods of Cell: decorators and parameter lists (= the memo key of functools.cache), and the
+    # arguments get_neighborhood hands on to _neighborhood
+    tree = ast.parse(open(os.path.join(repo, "mesa/discrete_space/cell.py")).read())
+    cell = _find_class(tree, "Cell")
+    memo = []
+    for name in ("get_neighborhood", "_neighborhood", "neighborhood"):
+        fn = _find_func(cell, name)
+        a = fn.args
+        params = [x.arg for x in a.posonlyargs + a.args] + (["*" + a.vararg.arg] if a.vararg else []) + [x.arg for x in a.kwonlyargs] + (
+            ["**" + a.kwarg.arg] if a.kwarg else [])
+        memo.append((name, [_norm_decorator(d) for d in fn.decorator_list], params))
+    res["nbhdMemo"] = memo
+    inner = None
+    for n in ast.walk(_find_func(cell, "get_neighborhood")):
+        if isinstance(n, ast.Call) and isinstance(n.func, ast.Attribute) and n.func.attr == "_neighborhood":
+            # positional arguments are bound to the parameter names, so that a positional / keyword rewrite stays quiet
+            names = memo[1][2][1:]
+            bound = {names[i]: ast.unparse(x) for i, x in enumerate(n.args) if i < len(names)}
+            bound.update({k.arg: ast.unparse(k.value) for k in n.keywords if k.arg})
+            inner = [f"{k}={bound[k]}" for k in names if k in bound] + [f"{k}={v}" for k, v in bound.items() if k not in names]
+    if inner is None:
+        raise LookupError("get_neighborhood -> _neighborhood call")
+    res["nbhdInnerCall"] = inner
     return res
 
 
@@ -155,6 +192,22 @@ def probe_tables():
     res["hexProbeOdd"] = [tuple(int(x) for x in k) for k in g[2, 1].connections]
     res["hexProbeOdd3"] = [tuple(int(x) for x in k) for k in g[2, 3].connections]
     res["directionProbe"] = [(k, tuple(int(x) for x in v)) for k, v in Grid2DMovingAgent.DIRECTION_MAP.items()]
+    # the memoised methods as the running class has them: functools.cache wrappers (cache_clear) around functions with these
+    # parameters, a cached_property
+    import functools
+    import inspect
+
+    from mesa.discrete_space import Cell
+
+    memo = []
+    for name in ("get_neighborhood", "_neighborhood"):
+        f = Cell.__dict__[name]
+        how = [MEMO] if hasattr(f, "cache_clear") and hasattr(f, "__wrapped__") and not f.cache_parameters().get("typed") else ["?"]
+        memo.append((name, how, list(inspect.signature(getattr(f, "__wrapped__", f)).parameters)))
+    f = Cell.__dict__["neighborhood"]
+    memo.append(("neighborhood", ["cached_property"] if isinstance(f, functools.cached_property) else ["?"],
+                 list(inspect.signature(f.func).parameters) if isinstance(f, functools.cached_property) else []))
+    res["nbhdMemoProbe"] = memo
     return res
 
 
@@ -174,6 +227,14 @@ def _lean_dirs(l):
     return "[" + ",\n   ".join(f'("{k}", ({_lean_int(a)}, {_lean_int(b)}))' for k, (a, b) in l) + "]"
 
 
+def _lean_strs(l):
+    return "[" + ", ".join('"' + x.replace("\\", "\\\\").replace('"', '\\"') + '"' for x in l) + "]"
+
+
+def _lean_memo(m):
+    return "[" + ",\n   ".join(f'("{n}", {_lean_strs(d)}, {_lean_strs(a)})' for n, d, a in m) + "]"
+
+
 def gen_tables():
     """{relative lean path: content} — rewritten from MESA_REPO on every check"""
     pr = probe_tables()
@@ -184,7 +245,8 @@ def gen_tables():
         # harmless refactor of the literals' shape: fall back to what the running code uses
         at = {"moore2d": pr["mooreProbe2"], "vn2d": pr["vnProbe2"], "hexWhenOdd": pr["hexProbeOdd"],
               "hexWhenEven": pr["hexProbeEven"], "hexParityAxis": 1, "mooreNdBase": [-1, 0, 1],
-              "vnNdDeltas": [-1, 1], "directionMap": pr["directionProbe"]}
+              "vnNdDeltas": [-1, 1], "directionMap": pr["directionProbe"], "nbhdMemo": pr["nbhdMemoProbe"],
+              "nbhdInnerCall": ["radius=radius", "include_center=include_center"]}
         how = f"probe (AST shape not found: {type(e).__name__})"
     L = []
     L.append("/-! GENERATED by harness/cells_common.py `gen_tables()` from mesa/discrete_space/grid.py and")
@@ -211,6 +273,12 @@ def gen_tables():
     L.append(f"def hexProbeOdd : List (List Int) := {_lean_vecs(pr['hexProbeOdd'])}")
     L.append(f"def hexProbeOdd3 : List (List Int) := {_lean_vecs(pr['hexProbeOdd3'])}")
     L.append(f"def directionProbe : List (String × (Int × Int)) :=\n  {_lean_dirs(pr['directionProbe'])}")
+    L.append("/-- the memoised neighbourhood methods of `Cell` in the source: (name, decorators, parameters) — the parameters of a")
+    L.append("    `functools.cache`d method are its memo key -/")
+    L.append(f"def nbhdMemo : List (String × List String × List String) :=\n  {_lean_memo(at['nbhdMemo'])}")
+    L.append(f"def nbhdMemoProbe : List (String × List String × List String) :=\n  {_lean_memo(pr['nbhdMemoProbe'])}")
+    L.append("/-- the arguments `get_neighborhood` hands on to `_neighborhood` -/")
+    L.append(f"def nbhdInnerCall : List String := {_lean_strs(at['nbhdInnerCall'])}")
     L.append("")
     L.append("end Mesa.Cells.Gen")
     return {"MesaModel/Gen/CellTables.lean": "\n".join(L) + "\n"}
